@@ -5,7 +5,7 @@ from harness import common, gen, api
 from harness.common import fhex, flist
 
 LEVEL = "proof"
-IMPORTS = ["From MuxV Require Import Base.Num Base.Vec3 Base.FInst Model.Helpers Model.AeroState Model.Analyses Model.AnalysesF."]
+IMPORTS = ["From MuxV Require Import Base.Num Base.Vec3 Base.FInst Model.Helpers Model.AeroState Model.Analyses Model.AnalysesF Model.Controls Model.ControlsF."]
 BODYK = ["Cx", "Cy", "Cz", "Cl", "Cm", "Cn"]
 STABK = [k + "_s" for k in BODYK]
 WINDK = ["CL", "CD", "CS", "Cl_w", "Cm_w", "Cn_w"]
@@ -160,7 +160,17 @@ def check_control(chk, MX, sd, acs, frames, name, cases, descr):
     dth = rng.choice([0.5, 0.25])
     sc = gen.build_scene(MX, sd, acs)
     rec = Recorder(sc)
-    out = sc.control_derivatives(aircraft=name, dtheta=dth, **frames)[name]
+    # the control states the analysis hands to the aircraft (forward, backward, reset for every control in turn)
+    ap_ = sc._airplanes[name]
+    handed, orig_set = [], ap_.set_control_state
+    def recording_set(control_state={}):
+        handed.append(copy.deepcopy(control_state))
+        return orig_set(control_state)
+    ap_.set_control_state = recording_set
+    try:
+        out = sc.control_derivatives(aircraft=name, dtheta=dth, **frames)[name]
+    finally:
+        del ap_.set_control_state
     rec.stop()
     cs = [a for a in acs if a[0] == name][0][3]
     keys = frame_keys(frames)
@@ -177,6 +187,12 @@ def check_control(chk, MX, sd, acs, frames, name, cases, descr):
             got = out["%s,d%s" % (k, cname)]
             if not abs(got - exp) <= 2e-5 * (abs(exp) + 1e-3):
                 return "control:%s,d%s" % (k, cname), dict(key="%s,d%s" % (k, cname), reported=got, independent=exp)
+        if isinstance(cs.get(cname), list) and len(handed) >= 3 * j + 2:
+            # a table-valued input: the tables handed over are the model's shift of the recorded table by +step / -step
+            tb = lambda t_: "[" + "; ".join("(%s, %s)" % (fhex(float(r_[0])), fhex(float(r_[1]))) for r_ in np.asarray(t_, dtype=float)) + "]"
+            cases.append("chk_shift_table %s %s %s && chk_shift_table %s %s %s" % (tb(cs[cname]), fhex(dth), tb(handed[3 * j][cname]),
+                                                                                 tb(cs[cname]), fhex(-dth), tb(handed[3 * j + 1][cname])))
+            descr.append(dict(what="control-step-on-table," + cname))
         f = lambda i: [rec.calls[i]["result"][name]["total"][k] for k in keys]
         cases.append("chk_cdiv %s %s %s %s" % (fhex(2 * np.radians(dth)), flist(f(2 * j)), flist(f(2 * j + 1)),
                                                flist([out["%s,d%s" % (k, cname)] for k in keys])))
